@@ -165,6 +165,13 @@ def desc(v: Any) -> str:
     return type(v).__name__ + ":" + repr(v)[:40]
 
 
+def snap_same(a: Any, b: Any) -> bool:
+    """snapshot entries: markers ('<AttributeError>', '<raised ...>') only match themselves; values must be bit-identical"""
+    if isinstance(a, str) or isinstance(b, str):
+        return isinstance(a, str) and isinstance(b, str) and a == b
+    return bits_equal(a, b)
+
+
 def maxdiff(a: Any, b: Any) -> str:
     try:
         if isinstance(a, np.ndarray) and isinstance(b, np.ndarray) and a.shape == b.shape and a.dtype != object and a.size:
@@ -620,8 +627,7 @@ def compare_snap(P: C.Part, case, tag: str, got: Dict[str, Any], ref: Dict[str, 
             continue
         P.cases += 1
         a, b = got.get(n, "<absent>"), ref[n]
-        same = (a == b) if isinstance(a, str) or isinstance(b, str) else bits_equal(a, b)
-        if not same:
+        if not snap_same(a, b):
             sa, sb = (a if isinstance(a, str) else desc(a)), (b if isinstance(b, str) else desc(b))
             add_violation(P, f"{tag}: after [{' '.join(ops)}] {what}: attribute {n} is {sa}, the untouched twin has {sb}{maxdiff(a, b)}",
                           {"check": "sequence", "mode": mode, "what": what, "none_flip": (a is None) != (b is None)}, case, {"ops": ops, "name": n})
@@ -657,7 +663,7 @@ def check_sequence(P: C.Part, res, twin, case: Dict[str, Any], tag: str, rng: np
                     except AttributeError:
                         v = "<AttributeError>"
                     b = ref_sorted[n]
-                    if n != "compute_t" and not ((v == b) if isinstance(v, str) or isinstance(b, str) else bits_equal(v, b)):
+                    if n != "compute_t" and not snap_same(v, b):
                         add_violation(P, f"{tag}: after [{' '.join(done)}] attribute {n} is {desc(v) if not isinstance(v, str) else v}, the untouched twin has "
                                          f"{desc(b) if not isinstance(b, str) else b}", {"check": "sequence", "mode": mode, "what": "read"}, case, {"ops": done, "name": n})
                         return cur
@@ -831,7 +837,7 @@ def corr_none_tables(ctx, P: C.Part, names: List[str]) -> None:
 
 def corr_interp(ctx, P: C.Part) -> None:
     """(c) real get_measurement vs Model.interp (driver) on (f, real part) and (f, imaginary part)"""
-    n_res = ctx.scale(8, 60)
+    n_res = ctx.scale(18, 180)
     for i in range(n_res):
         if ctx.time_left() < 60:
             P.notes.append("interp correspondence: time budget reached")
@@ -901,7 +907,7 @@ def oracle(ctx, intensive: bool = False, hints: List[Dict[str, Any]] = ()) -> C.
     for rec, seed, ops in corpus():
         run_case(P, rec, seed, names, ops)
         P.hit("corpus")
-    n = ctx.scale(70, 700) * (4 if intensive else 1)
+    n = ctx.scale(200, 3000) * (4 if intensive else 1)
     for i in range(n):
         if ctx.time_left() < 20:
             P.notes.append(f"time budget reached after {i} generated results")
